@@ -7,15 +7,16 @@ impl<$TP> Handle<$G, Message<$O, Tok_sink_talkback>> for SinkH {
         if k == $GATE_NO_PULL_DOWN { !(m is Pull) }
         else if k == $GATE_GREET_ONCE { m is Handshake ==> g.dn.phase == Dn::NotGreeted }
         else if k == $GATE_GREET_FIRST { !(m is Handshake) ==> g.dn.phase != Dn::NotGreeted }
-        else if k == $GATE_AFTER_TERM { !(m is Handshake) ==> g.dn.phase != Dn::EndedByUs }
-        else if k == $GATE_AFTER_DISPOSAL { !(m is Handshake) ==> g.dn.phase != Dn::EndedBySink }
+        else if k == $GATE_AFTER_TERM { $LITE || (!(m is Handshake) ==> g.dn.phase != Dn::EndedByUs) }
+        else if k == $GATE_AFTER_DISPOSAL { $LITE || (!(m is Handshake) ==> g.dn.phase != Dn::EndedBySink) }
         else if k == $GATE_NO_ORPHAN { m is Terminate || m is Error ==> $ORPHAN }
         else if k == $GATE_QUIET { $QUIET }
         else if k == $GATE_UNREQUESTED { m is Data && c.pullable ==> g.dn.data.len() < g.dn.pulls }
         else { $SINKGATE }
     }
-    open spec fn post(&self, g: $G, m: Message<$O, Tok_sink_talkback>) -> $G { $GNAME { dn: dn_send(g.dn, m), ..g } }
-    open spec fn needs_inv(&self, g: $G, m: Message<$O, Tok_sink_talkback>, p: int) -> bool { !(m is Terminate || m is Error) }
+    /// (LITE units switch the after-termination clauses off; there a sink that is already over ignores what it is sent)
+    open spec fn post(&self, g: $G, m: Message<$O, Tok_sink_talkback>) -> $G { if $LITE && dn_over(g.dn.phase) { g } else { $GNAME { dn: dn_send(g.dn, m), ..g } } }
+    open spec fn needs_inv(&self, g: $G, m: Message<$O, Tok_sink_talkback>, p: int) -> bool { !(m is Terminate || m is Error) && !($LITE && dn_over(g.dn.phase)) }
     open spec fn extra(&self, h: Self::HH, g: $G, c: Self::CC, m: Message<$O, Tok_sink_talkback>) -> bool { true }
 }
 impl SinkH {
@@ -32,8 +33,10 @@ impl SinkH {
             sink_rel(*old(h), self.post(old(g)@, m), *final(h), final(g)@, *c),
             !self.needs_inv(old(g)@, m, 0) ==> *final(h) == *old(h) && final(g)@ == self.post(old(g)@, m),
     {
+        let ghost ignored = $LITE && dn_over(g@.dn.phase);
         proof { g@ = self.post(g@, m); }
         if matches!(m, Message::Terminate | Message::Error(_)) { return; }  // a terminated sink is silent
+        if ghost_test(Ghost(ignored)) { return; }
         let ghost h0 = *h; let ghost g0 = g@;
         loop
             invariant
